@@ -109,6 +109,8 @@ let handle line =
    | "VERIFY" -> let db = rd_db () in let l = rd_str () in w (if M.mm_verify db l then "1" else "0")
    | "AGREE" -> let db = rd_db () in let s = rd_db () in let l = rd_str () in
                 w (if M.scope_agree db s l then "1" else "0")
+   | "HYPS3" -> let db = rd_db () in let l = rd_str () in
+                w (if M.sym_disjoint db then "1" else "0"); w (if M.compressed_lemma db l then "1" else "0")
    | "DECL" -> let db = rd_db () in w (if M.declares_all db then "1" else "0")
    | "CONSISTENT" -> let db = rd_db () in w (if M.consistent db then "1" else "0")
    | c -> raise (Bad ("command " ^ c))
